@@ -1496,7 +1496,7 @@ func (s *Sim) finishCells() {
 			a := &accs[i]
 			ex := false
 			for _, e := range s.T.CellExempt {
-				if e.Subject == name && e.Func == a.Func && (e.Kind == "" || (e.Kind == "write") == a.Write) {
+				if (e.Subject == name || e.Subject == al.Type().Underlying().(*types.Pointer).Elem().String()) && e.Func == a.Func && (e.Kind == "" || (e.Kind == "write") == a.Write) {
 					ex = true
 				}
 			}
